@@ -102,7 +102,10 @@ pub fn check_link(case: &LinkCase) -> CaseResult {
                 v.symlink(&t, &aux).map_err(|e| fail("setup", e.to_string()))?;
             },
             _ => {
-                v.mkdir_p(ab(&parent(&case.target))).map_err(|e| fail("setup", e.to_string()))?;
+                // (a missing target below the link's own path has no parent to create)
+                if !is_under(&case.target, &case.link) {
+                    v.mkdir_p(ab(&parent(&case.target))).map_err(|e| fail("setup", e.to_string()))?;
+                }
             },
         }
         let points_to_dir = matches!(case.target_kind.as_str(), "dir" | "link-dir");
@@ -357,15 +360,20 @@ pub fn run(c: &Ctx) {
         let mut targets: Vec<String> = pos.clone();
         targets.push("/".into());
         for t in &targets {
-            if t == l || is_under(t, l) {
-                continue; // a path below the link itself cannot exist
+            if t == l {
+                continue;
             }
+            // a path below the link itself cannot exist, but a link may name it (dangling)
+            let below_link = is_under(t, l);
             let t_is_ancestor = is_under(l, t);
             for kind in ["dir", "file", "missing", "link-dir", "link-file"] {
                 if t_is_ancestor && kind != "dir" {
                     continue; // an ancestor of the link is necessarily a directory
                 }
                 if kind != "dir" && t == "/" {
+                    continue;
+                }
+                if below_link && kind != "missing" {
                     continue;
                 }
                 // the target's own ancestors must be creatable: not below the link path
